@@ -37,6 +37,8 @@ class Machine(object):
         self.eip = None         # ('fall',) | ('taken-direct', cond) | BV32 value
         self.assume = []        # architectural preconditions (no #DE etc.)
         self.eip_kind = None
+        self.loads = []         # (address term, nbytes) read by the spec
+        self.stores = []        # (address term, nbytes) written by the spec
     # ---- reads (always from the pre-state)
     def r32(self, n): return self.st.reg(GPR[n], 32)
     def flag(self, f): return self.st.reg(f, 1)
@@ -82,9 +84,11 @@ class Machine(object):
         return a + sb if sb is not None else a
     def load(self, addr, size):
         n = size // 8
+        self.loads.append((addr, n))
         bs = [z3.Select(self.st.mem, addr + bv(i, 32)) for i in range(n)]
         return bs[0] if n == 1 else z3.Concat(*reversed(bs))
     def store(self, addr, v):
+        self.stores.append((addr, v.size() // 8))
         for i in range(v.size() // 8):
             self.mem = z3.Store(self.mem, addr + bv(i, 32), z3.Extract(8 * i + 7, 8 * i, v))
     def read(self, op, esp_override=None):
